@@ -83,7 +83,7 @@ def _drive(ctx, far_end, outcome, details_spec, reason=None, with_times=True):
     classes = ctx.classes
     etsd = classes.get(REAL, "ExtendedToStreamDecorator")
     dom = ConversionDomain(classes, accepting=("stream", "result"))
-    d = so.Driver(ctx, etsd, dom, depth=18)
+    d = so.Driver(ctx, etsd, dom, depth=30)
     st = State()
     if far_end == "stream":
         target = ("wobj", "stream")
@@ -251,7 +251,7 @@ def check_incomplete_replay(ctx):
     classes = ctx.classes
     sted = classes.get(REAL, "StreamToExtendedDecorator")
     dom = ConversionDomain(classes, accepting=("result",))
-    d = so.Driver(ctx, sted, dom, depth=18)
+    d = so.Driver(ctx, sted, dom, depth=30)
     runs = d.call(d.construct([("wobj", "result")]), "startTestRun")
     runs = d.call(runs, "status", kw=so.event(("const", "pkg.hung"), status=("const", "inprogress"), ts=T_START))
     runs = d.call(runs, "status", kw=so.event(("const", "pkg.files-only"), file_name=("const", "log"), file_bytes=C1, mime=("const", "text/plain"), ts=T_START))
